@@ -170,10 +170,11 @@ func (p *printer) natural(t *Tree) string {
 			words[i] = p.kw(words[i])
 		}
 		left := p.at(t.Args[0], l)
-		right := p.at(t.Args[1], l+1)
+		rl := l + 1
 		if l == 5 { // right operand of level 5 is E6
-			right = p.at(t.Args[1], 6)
+			rl = 6
 		}
+		right := p.at(t.Args[1], rl)
 		// a '+'-decorated primary: the unary plus adds no node
 		return left + p.sep() + strings.Join(words, p.sep()) + p.sep() + right
 	}
